@@ -355,9 +355,8 @@ def run_fault_then_set(case, r):
         except Exception:
             pass
         r.transitions += 1
-        # Property setters do not stamp even without a preceding refusal (recorded finding of the history scenario)
         sets = [op for op in O.enabled(m, THIN) if op[0] == "set" and op[3] is not None
-                and listed(op, explorer.target_kind(m, op)) and explorer.target_kind(m, op) != "Property"]
+                and listed(op, explorer.target_kind(m, op))]
         before = stamps(walker.walk(s.f, core=True))
         last_set = {}
         for op in sets:
